@@ -71,7 +71,11 @@ def cases(draw, tier):
                                ("samp_md", samp, md_axis if axis ==
                                 "sample" else md_other)):
             if flag:
-                spec[key] = [{"src": "t%d" % j, "of": i} for i in ids]
+                # (a value may be empty, zero or false; it is a value)
+                spec[key] = [{"src": "t%d" % j, "of": i,
+                              "n": draw(st.sampled_from(
+                                  [0, "", False, [], 0.0, 3, "x", ["a"]]))}
+                             for i in ids]
         operands.append(spec)
     if k >= 2 and draw(st.sampled_from([False] * 7 + [True])):
         # two operands' IDs that differ only by a trailing blank are
@@ -175,7 +179,15 @@ def _check(case, rec, tabs):
 
     if case["overlap"]:
         try:
-            run()
+            if len(snaps[0]["obs"]) % 2:
+                # the refusal is concat's own: it does not hinge on how the
+                # caller configured the reactions to table errors
+                from biom.err import errstate
+                rec.cls("overlap-under-errstate-ignore")
+                with errstate(all="ignore"):
+                    run()
+            else:
+                run()
         except DisjointIDError:
             rec.cls("overlap-refused:%s" % case["overlap"])
             rec.nt(True)
